@@ -34,5 +34,13 @@ mcGensPageLinks == << NewCrawl(Links0), NewCrawl(<< [src |-> C, tgts |-> <<E, B>
 mcGensChildren == << NewCrawl(<< [src |-> D, tgts |-> <<Z>>] >>), NewRule(A, Path1), NewChildrenQuery(1, PsA) >>
 mcGensLinksF11 == << NewCrawl(Links0), NewRule(A, Path1), NewLinksQuery(PsA, TRUE) >>
 mcGensPageLinksF11 == << NewCrawl(Links0), NewRule(A, Path1), NewPageLinksQuery(1, PsA, TRUE, TRUE, TRUE) >>
+\* F12 at design level: D links to E (https side) from the start; a crawl adds D -> A (the http home page);
+\* a rule on the https site moves E to a new webentity.  The citing query of the domain webentity walks the
+\* http realm first: it can pass A before the new link exists and reach E after it has left the webentity -
+\* and miss webentity 1 (D's own), which cited it at every moment
+\* (X, a page without webentity, links to D: the query has a yield point at D, between C and E)
+X == <<6,1>>
+mcSetupF12 == << [l |-> C, cr |-> FALSE], [l |-> X, cr |-> TRUE, tgts |-> <<D>>], [l |-> D, cr |-> TRUE, tgts |-> <<E>>] >>
+mcGensF12  == << NewCrawl(<< [src |-> D, tgts |-> <<A>>] >>), NewRule(<<7,1,2>>, Path1), NewLinksQuery(PsA, FALSE) >>
 mcGensF11 == << NewCrawl(Links0), NewRule(A, Path1), NewNetQuery(TRUE, FALSE) >>
 =============================================================================
